@@ -203,6 +203,10 @@ func genC03Input(t *rapid.T) ([]byte, int) {
 						f.File = rapid.SampledFrom([]string{"/a", "", "/x/y", "/usr/lib/go/src", "/go/src", "/s", "@FIX@"}).Draw(t, "stdPrefix") + "/" +
 							rapid.SampledFrom([]string{"fmt/print.go", "runtime/proc.go", "os/file.go", "net/http/server.go"}).Draw(t, "stdTail")
 						f.Line = rapid.IntRange(1, 200).Draw(t, "stdLine")
+					} else if oneIn(t, 12, "shortUnderRoot") {
+						// a file directly below what another frame reveals as the remote Go root
+						f := &d.Gs[gi].Frames[fi]
+						f.File = rapid.SampledFrom([]string{"/usr/lib/go", "/go", "/x/y", "/s"}).Draw(t, "shortRoot") + rapid.SampledFrom([]string{"/z.s", "/a.go", "x.s", ".go", "/s.c"}).Draw(t, "shortTail")
 					}
 				}
 			}
